@@ -1,163 +1,10 @@
-import TapkeeVerif.Proofs.ParamsTyped
-import TapkeeVerif.Props.C14Spec
-import Mathlib.Tactic.SplitIfs
-/-
-Symbolic evaluation of the front end for each method, for arbitrary (well-typed) values, arbitrary N, arbitrary
-subsets of supplied callbacks, both harness modes: one closed nested-`if` form per method (computed by `simp` from
-the generated tables), from which the per-method verdict `Verdict` is read off branch by branch.
--/
-set_option linter.unusedSimpArgs false
+import TapkeeVerif.Proofs.ParamsEval1
+import TapkeeVerif.Proofs.ParamsEval2
+import TapkeeVerif.Proofs.ParamsEval3
+import TapkeeVerif.Proofs.ParamsEval4
+/- the per-method verdicts (Proofs/ParamsEval1..4.lean) combined -/
 namespace TapkeeVerif.Params
 open TapkeeVerif.Front TapkeeVerif.Gen TapkeeVerif.C14
-
-/-- what `tapkee::embed` does after `check()` and `merge(defaults)`, started on the merged set `ps` -/
-def afterMerge (r : Request) (ps : PSet) : Except Stop FState × Counts :=
-  runSteps r (frontSteps.drop 2) { ps := ps } Counts.zero
-
-/-- `frontSteps` begins with `check(); merge(defaults);` -/
-theorem frontSteps_head : frontSteps = .checkDuplicates :: .mergeDefaults :: frontSteps.drop 2 := rfl
-
-def wpe : Stop := .threw (errS .wrong_parameter_error)
-
-/-- every callback the method declares to need is supplied -/
-def DeclaredSupplied (m : Meth) (r : Request) : Prop :=
-  (m.traits.needsKernel = true → r.hasK = true) ∧ (m.traits.needsDistance = true → r.hasD = true) ∧
-  (m.traits.needsFeatures = true → r.hasF = true)
-
-/-- what is established about the outcome `x` of `afterMerge` for method `m` -/
-def Verdict (m : Meth) (r : Request) (t : TypedVals) (x : Except Stop FState × Counts) : Prop :=
-  (r.n ≠ 0 → t.cancel .cancel_function ≠ some true → DeclaredSupplied m r →
-      (x.1 = .error wpe ↔ ¬ SpecHolds m r.n t.num (t.bool .spe_global_strategy == false))) ∧
-  (∀ e, x.1 = .error (.threw e) → x.2.kernel = 0 ∧ x.2.distance = 0) ∧
-  (DeclaredSupplied m r → (∀ c ∈ callbacksMentioned m, r.has c = true) →
-      x.1 ≠ .error (.threw (errT .unsupported_method_error))) ∧
-  (∀ e, x.1 = .error (.threw e) →
-      e = errT .no_data_error ∨ e = errS .wrong_parameter_error ∨ e = errT .cancelled_exception ∨
-      e = errT .unsupported_method_error)
-
-macro "front_simp" "[" ts:Lean.Parser.Tactic.simpLemma,* "]" : tactic =>
-  `(tactic| simp [afterMerge, frontSteps, runSteps, runStep, findDispatch, dispatch, runDispatchSteps, validate, runChecks,
-    embedBody, runStmts, runStmt, runEvs, runEv, runBlock, isLit, useCb, TypedVals.get, TypedVals.val, Kw.ty,
-    convert, Val.ty, runCheck, Val.num?, Pred.ty, Pred.holds, BExpr.eval, BExpr.isInt, Request.has, Meth.traits, Traits.needs,
-    M.ite_apply, errS, errT, Rat.intCast_natCast, $ts,*])
-
-macro "verdict_leaf" : tactic =>
-  `(tactic| simp_all [Verdict, wpe, SpecHolds, neighbourMethods, DeclaredSupplied, TypedVals.num, Kw.ty, Meth.traits,
-    callbacksMentioned, embedBody, stmtCallbacks, evCallbacks, blockCallbacks, Request.has, errS, errT, Counts.zero, Counts.bump,
-    Rat.intCast_natCast])
-
-theorem verdict_KernelLocallyLinearEmbedding (r : Request) (t : TypedVals) (ps : PSet) (hget : ∀ k, ps.get k = t.get k)
-    (hm : t.meth .method = .KernelLocallyLinearEmbedding) : Verdict .KernelLocallyLinearEmbedding r t (afterMerge r ps) := by
-  front_simp [hget, hm]
-  split_ifs <;> verdict_leaf
-
-theorem verdict_NeighborhoodPreservingEmbedding (r : Request) (t : TypedVals) (ps : PSet) (hget : ∀ k, ps.get k = t.get k)
-    (hm : t.meth .method = .NeighborhoodPreservingEmbedding) : Verdict .NeighborhoodPreservingEmbedding r t (afterMerge r ps) := by
-  front_simp [hget, hm]
-  split_ifs <;> verdict_leaf
-
-theorem verdict_KernelLocalTangentSpaceAlignment (r : Request) (t : TypedVals) (ps : PSet) (hget : ∀ k, ps.get k = t.get k)
-    (hm : t.meth .method = .KernelLocalTangentSpaceAlignment) : Verdict .KernelLocalTangentSpaceAlignment r t (afterMerge r ps) := by
-  front_simp [hget, hm]
-  split_ifs <;> verdict_leaf
-
-theorem verdict_LinearLocalTangentSpaceAlignment (r : Request) (t : TypedVals) (ps : PSet) (hget : ∀ k, ps.get k = t.get k)
-    (hm : t.meth .method = .LinearLocalTangentSpaceAlignment) : Verdict .LinearLocalTangentSpaceAlignment r t (afterMerge r ps) := by
-  front_simp [hget, hm]
-  split_ifs <;> verdict_leaf
-
-theorem verdict_HessianLocallyLinearEmbedding (r : Request) (t : TypedVals) (ps : PSet) (hget : ∀ k, ps.get k = t.get k)
-    (hm : t.meth .method = .HessianLocallyLinearEmbedding) : Verdict .HessianLocallyLinearEmbedding r t (afterMerge r ps) := by
-  front_simp [hget, hm]
-  split_ifs <;> verdict_leaf
-
-theorem verdict_LaplacianEigenmaps (r : Request) (t : TypedVals) (ps : PSet) (hget : ∀ k, ps.get k = t.get k)
-    (hm : t.meth .method = .LaplacianEigenmaps) : Verdict .LaplacianEigenmaps r t (afterMerge r ps) := by
-  front_simp [hget, hm]
-  split_ifs <;> verdict_leaf
-
-theorem verdict_LocalityPreservingProjections (r : Request) (t : TypedVals) (ps : PSet) (hget : ∀ k, ps.get k = t.get k)
-    (hm : t.meth .method = .LocalityPreservingProjections) : Verdict .LocalityPreservingProjections r t (afterMerge r ps) := by
-  front_simp [hget, hm]
-  split_ifs <;> verdict_leaf
-
-theorem verdict_DiffusionMap (r : Request) (t : TypedVals) (ps : PSet) (hget : ∀ k, ps.get k = t.get k)
-    (hm : t.meth .method = .DiffusionMap) : Verdict .DiffusionMap r t (afterMerge r ps) := by
-  front_simp [hget, hm]
-  split_ifs <;> verdict_leaf
-
-theorem verdict_Isomap (r : Request) (t : TypedVals) (ps : PSet) (hget : ∀ k, ps.get k = t.get k)
-    (hm : t.meth .method = .Isomap) : Verdict .Isomap r t (afterMerge r ps) := by
-  front_simp [hget, hm]
-  split_ifs <;> verdict_leaf
-
-theorem verdict_LandmarkIsomap (r : Request) (t : TypedVals) (ps : PSet) (hget : ∀ k, ps.get k = t.get k)
-    (hm : t.meth .method = .LandmarkIsomap) : Verdict .LandmarkIsomap r t (afterMerge r ps) := by
-  front_simp [hget, hm]
-  split_ifs <;> verdict_leaf
-
-theorem verdict_MultidimensionalScaling (r : Request) (t : TypedVals) (ps : PSet) (hget : ∀ k, ps.get k = t.get k)
-    (hm : t.meth .method = .MultidimensionalScaling) : Verdict .MultidimensionalScaling r t (afterMerge r ps) := by
-  front_simp [hget, hm]
-  split_ifs <;> verdict_leaf
-
-theorem verdict_LandmarkMultidimensionalScaling (r : Request) (t : TypedVals) (ps : PSet) (hget : ∀ k, ps.get k = t.get k)
-    (hm : t.meth .method = .LandmarkMultidimensionalScaling) : Verdict .LandmarkMultidimensionalScaling r t (afterMerge r ps) := by
-  front_simp [hget, hm]
-  split_ifs <;> verdict_leaf
-
-theorem verdict_SPE_local (r : Request) (t : TypedVals) (ps : PSet) (hget : ∀ k, ps.get k = t.get k)
-    (hm : t.meth .method = .StochasticProximityEmbedding) (hg : t.bool .spe_global_strategy = false) :
-    Verdict .StochasticProximityEmbedding r t (afterMerge r ps) := by
-  front_simp [hget, hm, hg]
-  split_ifs <;> verdict_leaf
-
-theorem verdict_SPE_global (r : Request) (t : TypedVals) (ps : PSet) (hget : ∀ k, ps.get k = t.get k)
-    (hm : t.meth .method = .StochasticProximityEmbedding) (hg : t.bool .spe_global_strategy = true) :
-    Verdict .StochasticProximityEmbedding r t (afterMerge r ps) := by
-  front_simp [hget, hm, hg]
-  split_ifs <;> verdict_leaf
-
-theorem verdict_StochasticProximityEmbedding (r : Request) (t : TypedVals) (ps : PSet) (hget : ∀ k, ps.get k = t.get k)
-    (hm : t.meth .method = .StochasticProximityEmbedding) : Verdict .StochasticProximityEmbedding r t (afterMerge r ps) := by
-  cases hg : t.bool .spe_global_strategy
-  · exact verdict_SPE_local r t ps hget hm hg
-  · exact verdict_SPE_global r t ps hget hm hg
-
-theorem verdict_KernelPrincipalComponentAnalysis (r : Request) (t : TypedVals) (ps : PSet) (hget : ∀ k, ps.get k = t.get k)
-    (hm : t.meth .method = .KernelPrincipalComponentAnalysis) : Verdict .KernelPrincipalComponentAnalysis r t (afterMerge r ps) := by
-  front_simp [hget, hm]
-  split_ifs <;> verdict_leaf
-
-theorem verdict_PrincipalComponentAnalysis (r : Request) (t : TypedVals) (ps : PSet) (hget : ∀ k, ps.get k = t.get k)
-    (hm : t.meth .method = .PrincipalComponentAnalysis) : Verdict .PrincipalComponentAnalysis r t (afterMerge r ps) := by
-  front_simp [hget, hm]
-  split_ifs <;> verdict_leaf
-
-theorem verdict_RandomProjection (r : Request) (t : TypedVals) (ps : PSet) (hget : ∀ k, ps.get k = t.get k)
-    (hm : t.meth .method = .RandomProjection) : Verdict .RandomProjection r t (afterMerge r ps) := by
-  front_simp [hget, hm]
-  split_ifs <;> verdict_leaf
-
-theorem verdict_FactorAnalysis (r : Request) (t : TypedVals) (ps : PSet) (hget : ∀ k, ps.get k = t.get k)
-    (hm : t.meth .method = .FactorAnalysis) : Verdict .FactorAnalysis r t (afterMerge r ps) := by
-  front_simp [hget, hm]
-  split_ifs <;> verdict_leaf
-
-theorem verdict_tDistributedStochasticNeighborEmbedding (r : Request) (t : TypedVals) (ps : PSet) (hget : ∀ k, ps.get k = t.get k)
-    (hm : t.meth .method = .tDistributedStochasticNeighborEmbedding) : Verdict .tDistributedStochasticNeighborEmbedding r t (afterMerge r ps) := by
-  front_simp [hget, hm]
-  split_ifs <;> verdict_leaf
-
-theorem verdict_ManifoldSculpting (r : Request) (t : TypedVals) (ps : PSet) (hget : ∀ k, ps.get k = t.get k)
-    (hm : t.meth .method = .ManifoldSculpting) : Verdict .ManifoldSculpting r t (afterMerge r ps) := by
-  front_simp [hget, hm]
-  split_ifs <;> verdict_leaf
-
-theorem verdict_PassThru (r : Request) (t : TypedVals) (ps : PSet) (hget : ∀ k, ps.get k = t.get k)
-    (hm : t.meth .method = .PassThru) : Verdict .PassThru r t (afterMerge r ps) := by
-  front_simp [hget, hm]
-  split_ifs <;> verdict_leaf
 
 /-- the verdict holds for every method (one symbolic evaluation per method, above) -/
 theorem verdict (m : Meth) (r : Request) (t : TypedVals) (ps : PSet) (hget : ∀ k, ps.get k = t.get k)
